@@ -279,12 +279,17 @@ def generateReplacements (arguments : List (List Tok)) (repls : List Tok) (start
 
 /-! ### expand_verb_env_token -/
 
+/-- NB (documented deviation, DESIGN section 5): the eight synthesized tokens inherit `fix`
+    from the verbatim token.  The Python code creates them position-counting; they are
+    consumed as `\begin{verbatim}` / `\end{verbatim}` (only the *text* of the name is used), so
+    the flag is unobservable — but with it the range invariant is token-local. -/
 def expandVerbEnvToken (t : Tok) : List Tok :=
   let e := if t.fix then t.pos else t.pos + t.txt.length
   let v := "verbatim".toList
-  [ mkTok .xbegin t.pos sBegin, mkTok .special t.pos ['{'], mkTok .text t.pos v, mkTok .special t.pos ['}'],
+  let mk (k : Kind) (p : Nat) (s : Str) : Tok := { kind := k, pos := p, txt := s, fix := t.fix }
+  [ mk .xbegin t.pos sBegin, mk .special t.pos ['{'], mk .text t.pos v, mk .special t.pos ['}'],
     { t with kind := .verb false },
-    mkTok .xend e sEnd, mkTok .special e ['{'], mkTok .text e v, mkTok .special e ['}'] ]
+    mk .xend e sEnd, mk .special e ['{'], mk .text e v, mk .special e ['}'] ]
 
 /-! ### small table look-ups -/
 
